@@ -684,7 +684,7 @@ func (sc *scenario) gensify(r *rng) {
 func genMalformed(r *rng, c genCfg) *scenario {
 	sc := genScenario(r, c)
 	sc.Defaults = 0
-	kinds := []string{"nil", "convnil", "convnil", "convbad", "convbad", "genfail", "genfail", "genfail", "gennil", "gennil", "namednil"}
+	kinds := []string{"nil", "convnil", "convnil", "convbad", "convbad", "genfail", "genfail", "genfail", "gennil", "gennil", "namednil", "gennilfunc", "gennilfunc", "loggernil"}
 	o := optSpecC{Kind: kinds[r.intn(len(kinds))], Name: "a"}
 	pos := r.intn(len(sc.Opts) + 1)
 	sc.Opts = append(sc.Opts[:pos], append([]optSpecC{o}, sc.Opts[pos:]...)...)
